@@ -9,7 +9,7 @@ R-REGISTRY    every implementation of the two factory traits is instantiated in 
 R-REQ         in every derive-generated Args::from_vpl_node each field is read under its own name, non-Option fields through a
               `*_req` accessor, Option fields through the optional accessor, `sources` from node.sources; every accessor result passes `?`.
 """
-from . import ir
+from . import comp, ir
 from .report import m_drop_stmt, m_replace
 
 META = {
@@ -150,6 +150,41 @@ def rules(ck, P):
             ir.contains(pp[0]["body"], lambda y: y.get("k") == "call" and (y.get("q") or "").endswith("separated_list1"))
         ck.check(okp, "R-NODE", pp[0]["q"], "a pipeline is the non-empty separated list of parsed nodes, in order", "pipeline is not built from separated_list1 of nodes", ir.loc(pp[0]))
 
+    # ---------------- R-ORDER: the operations are built in the order of the text
+    sp = [x for x in P.bodies if x["q"].endswith("vpl::vpl_pipeline::VPLPipeline::split")]
+    bp = [x for x in P.bodies if x["q"].endswith("factory::PipelineFactory::build_pipeline")]
+    if ck.anchor("R-ORDER", "VPLPipeline::split + PipelineFactory::build_pipeline", sp + bp, 2):
+        b = sp[0]
+        muts = [y for y in ir.walk_nodes(b["body"]) if y.get("k") == "mcall" and y["recv"].get("ta", "").startswith("&mut") and ir.contains(y["recv"], lambda z: z.get("k") == "field" and z.get("name") == "pipeline")]
+        okm = len(muts) == 1 and muts[0]["name"] == "remove" and ir.const_eval(muts[0]["a"][0], {}) == 0
+        tup = [y for y in ir.walk_nodes(b["body"]) if y.get("k") == "tup" and len(y["es"]) == 2]
+        okt = False
+        if tup and okm:
+            first, rest = tup[0]["es"]
+            lets = comp.lets_of(b) if hasattr(comp, "lets_of") else {}
+            fh = ir.local_hid(first)
+            okt = fh in lets and ir.contains(lets[fh], lambda z: z is muts[0]) and ir.strip(rest).get("k") == "field" and ir.strip(rest).get("name") == "pipeline"
+        ck.check(okm and okt, "R-ORDER", b["q"], "split() takes the first node with remove(0) (order-preserving) and returns the remaining nodes as they are",
+                 "split() does not keep the order of the remaining operations (%s on the node list)" % [y["name"] for y in muts], ir.loc(b))
+        b2 = bp[0]
+        sc = [y for y in ir.walk_nodes(b2["body"]) if y.get("k") == "mcall" and (y.get("q") or "").endswith("VPLPipeline::split")]
+        loops = [y for y in ir.walk_nodes(b2["body"]) if y.get("k") == "for"]
+        oko = False
+        why = "no split()/loop"
+        if len(sc) == 1 and len(loops) == 1:
+            dl = [y for y in ir.walk_nodes(b2["body"]) if y.get("k") == "let" and "init" in y and ir.contains(y["init"], lambda z: z is sc[0])]
+            bs = ir.pat_binds(dl[0]["pat"]) if dl else []
+            it = ir.strip(loops[0]["iter"])
+            while it is not None and it.get("k") == "mcall" and it.get("name") in ("into_iter", "iter") and not it.get("a"):
+                it = ir.strip(it["recv"])
+            rd = [y for y in ir.walk_nodes(b2["body"]) if y.get("k") == "mcall" and (y.get("q") or "").endswith("read_operation_from_node")]
+            tr = [y for y in ir.walk_nodes(loops[0]["body"]) if y.get("k") == "mcall" and (y.get("q") or "").endswith("tran_operation_from_node")]
+            lv = ir.pat_binds(loops[0]["pat"])
+            oko = len(bs) == 2 and ir.local_hid(it) == bs[1]["hid"] and len(rd) == 1 and ir.local_hid(rd[0]["a"][0]) == bs[0]["hid"] and len(tr) == 1 and len(lv) == 1 and \
+                ir.local_hid(tr[0]["a"][0]) == lv[0]["hid"] and not ir.contains(loops[0]["body"], lambda z: z.get("k") in ("break", "continue", "if", "match"))
+            why = "head/tail wiring"
+        ck.check(oko, "R-ORDER", b2["q"], "the head becomes the read operation, every following node wraps the previous operation, in list order, unconditionally",
+                 "build_pipeline does not apply the transforms in the order of the text (%s)" % why, ir.loc(b2))
     # ---------------- R-REQ (accessors): a typed accessor rejects a value of the wrong type
     ba = [x for x in P.bodies if x["q"].endswith("vpl::vpl_node::VPLNode::get_property_bool_req")]
     if ck.anchor("R-REQ", "VPLNode::get_property_bool_req", ba, 1):
